@@ -550,12 +550,15 @@ def record_transport(case, t: Tally):
 # ------------------------------------------------------------------------------------------------------ drivers
 
 
+BUDGET = {"RRS": (120, 2000), "LP": (480, 12000), "TMP": (160, 5000), "RCP": (100, 3000)}  # cases per opcode (quick, thorough)
+
+
 def make_driver(proto: str):
     def drv(ctx: Ctx, sub: SubCheck):
         pdu_cases, _ = _strategies()
         ops = list(OPS[proto])
-        per_op = ctx.pick(120, 6000)
-        split = max(1, 16 // len(ops)) if not ctx.quick else 1
+        per_op = ctx.pick(*BUDGET[proto])
+        split = max(1, 16 // len(ops))
         items = [(op, j) for op in ops for j in range(split)]
 
         def work(item, t: Tally):
